@@ -337,7 +337,7 @@ def _subst(atom, old, new):
     return "".join(out)
 
 
-PURE_GETTERS = {"m_queue_len", "m_map_len", "m_list_len", "m_bst_len", "m_stack_len", "m_mod_is"}
+PURE_GETTERS = {"m_queue_len", "m_map_len", "m_list_len", "m_bst_len", "m_stack_len", "m_mod_is", "pthread_getspecific"}
 
 
 def pure_local_defs(fn):
